@@ -108,6 +108,14 @@ type ContractSet struct {
 	FieldRanges []*FieldRange
 	Assumptions []string // free-text assumptions declared in files ("assumption ...")
 	FieldProto  []*FieldProto
+	FieldDelta  []*FieldDelta
+}
+
+// FieldDelta: `fielddelta Type.field ghost` - the [ref]int ghost accumulates, per object, the net change
+// this thread makes to an integer field (new value minus old value at every store, wherever the store
+// sits: in the function itself or in an inlined helper).
+type FieldDelta struct {
+	Pkg, Type, Field, Ghost string
 }
 
 // FieldProto: lock discipline declaration for C16
@@ -174,7 +182,7 @@ func (cs *ContractSet) LoadContractFile(path, pkg string) error {
 		}
 		lines = append(lines, rawLine{t, n})
 	}
-	keywords := []string{"func ", "pred ", "ghost ", "uf ", "axiom ", "invariant ", "fieldrange ", "requires", "ensures", "modifies", "decreases", "loop ", "assert", "ghostset", "refines", "trusted", "opaque", "assumption ", "fieldproto ", "role ", "allocates", "interface", "join ", "hypothesis", "deterministic", "schema", "locks "}
+	keywords := []string{"func ", "pred ", "ghost ", "uf ", "axiom ", "invariant ", "fieldrange ", "requires", "ensures", "modifies", "decreases", "loop ", "assert", "ghostset", "refines", "trusted", "opaque", "assumption ", "fieldproto ", "fielddelta ", "role ", "allocates", "interface", "join ", "hypothesis", "deterministic", "schema", "locks "}
 	isKw := func(s string) bool {
 		s = strings.TrimSpace(s)
 		for _, k := range keywords {
@@ -325,6 +333,13 @@ func (cs *ContractSet) LoadContractFile(path, pkg string) error {
 				return fail(l, "bad fieldrange target")
 			}
 			cs.FieldRanges = append(cs.FieldRanges, &FieldRange{pkg, tf[0], tf[1], fs[2], fs[3]})
+		case strings.HasPrefix(t, "fielddelta "):
+			fs := strings.Fields(t)
+			if len(fs) != 3 || !strings.Contains(fs[1], ".") {
+				return fail(l, "bad fielddelta")
+			}
+			tf := strings.SplitN(fs[1], ".", 2)
+			cs.FieldDelta = append(cs.FieldDelta, &FieldDelta{Pkg: pkg, Type: tf[0], Field: tf[1], Ghost: fs[2]})
 		case strings.HasPrefix(t, "fieldproto "):
 			// fieldproto Type.field rule {props}
 			fs := strings.Fields(t)
